@@ -166,8 +166,8 @@ class Unsupported(Exception):
 
 def _bind(h: Helper, call: ast.Call, skip_first: bool) -> List[Tuple[str, ast.expr]]:
     a = h.node.args
-    if a.vararg or a.kwarg:
-        raise Unsupported("*args / **kwargs in the helper")
+    if a.vararg:
+        raise Unsupported("*args in the helper")
     if any(isinstance(x, ast.Starred) for x in call.args) or any(k.arg is None for k in call.keywords):
         raise Unsupported("* / ** in the call")
     pos = list(a.posonlyargs) + list(a.args)
@@ -199,8 +199,10 @@ def _bind(h: Helper, call: ast.Call, skip_first: bool) -> List[Tuple[str, ast.ex
             out.append((p.arg, dflt[p.arg]))
         else:
             raise Unsupported(f"no value for parameter {p.arg}")
-    if given:
+    if given and not a.kwarg:
         raise Unsupported(f"unknown keyword {sorted(given)}")
+    if a.kwarg:
+        out.append(("**" + a.kwarg.arg, [ast.keyword(arg=k, value=v) for k, v in given.items()]))
     return out
 
 
@@ -304,11 +306,31 @@ def _returns_were_here(loop) -> bool:
     return any(isinstance(n, ast.Break) and getattr(n, "_sa_inline_exit", False) for n in _walk_no_defs(loop))
 
 
+def _spread_kwargs(fn, binding):
+    """`**kwargs` of the helper, used only as `f(..., **kwargs)`: replaced by the keywords of the call site."""
+    rest = [b for b in binding if not b[0].startswith("**")]
+    for name, kws in [b for b in binding if b[0].startswith("**")]:
+        name = name[2:]
+        for n in ast.walk(fn):
+            if isinstance(n, ast.Call):
+                new = []
+                for k in n.keywords:
+                    if k.arg is None and isinstance(k.value, ast.Name) and k.value.id == name:
+                        new.extend(copy.deepcopy(kws))
+                    else:
+                        new.append(k)
+                n.keywords = new
+        if any(isinstance(n, ast.Name) and n.id == name for n in ast.walk(fn)):
+            raise Unsupported("**kwargs used other than as a pass-through")
+    return rest
+
+
 def expand(h: Helper, call: ast.Call, targets, caller_names: Set[str], tail: bool, flow_back: Set[str]):
     """Statements replacing a call of *h*.  targets: list of target nodes receiving the result ([] = discarded);
     tail: the call is `return h(...)` (returns stay returns)."""
     binding = _bind(h, call, skip_first=(h.cls is not None and not h.static))
     fn = copy.deepcopy(h.node)
+    binding = _spread_kwargs(fn, binding)
     body = _body_wo_doc(fn)
     stored = _stored_names(fn)
     params = [p for p, _ in binding]
@@ -538,6 +560,55 @@ def _remove_def(h: Helper, trees):
                 return
 
 
+def _toplevel_bindings(tree) -> Dict[str, ast.stmt]:
+    out = {}
+    for st in tree.body:
+        if isinstance(st, (ast.Import, ast.ImportFrom)):
+            for a in st.names:
+                out[(a.asname or a.name).split(".")[0]] = st
+        elif isinstance(st, _DEFS + (ast.ClassDef,)):
+            out[st.name] = st
+        elif isinstance(st, ast.Assign):
+            for t in st.targets:
+                for n in ast.walk(t):
+                    if isinstance(n, ast.Name):
+                        out[n.id] = st
+        elif isinstance(st, (ast.AnnAssign, ast.AugAssign)) and isinstance(st.target, ast.Name):
+            out[st.target.id] = st
+    return out
+
+
+def _cross_module_imports(h: Helper, caller_rel: str, trees) -> Optional[List[ast.stmt]]:
+    """Import statements the caller module needs so that the free names of the helper keep their meaning there;
+    None when a name means something else in the caller module (the call is then left alone)."""
+    src = _toplevel_bindings(trees[h.rel])
+    dst = _toplevel_bindings(trees[caller_rel])
+    local = _stored_names(h.node) | {a.arg for a in h.node.args.posonlyargs + h.node.args.args + h.node.args.kwonlyargs}
+    d = h.rel[:-3].replace("/", ".")
+    if d.endswith(".__init__"):
+        d = d[:-len(".__init__")]
+    src_dotted = "norminette" + ("." + d if d != "__init__" else "")
+    need: List[ast.stmt] = []
+    for n in _walk_no_defs(h.node):
+        if isinstance(n, ast.Name) and isinstance(n.ctx, ast.Load) and n.id not in local and n.id in src:
+            b = src[n.id]
+            if isinstance(b, ast.ImportFrom):
+                want = ast.ImportFrom(module=b.module, names=[a for a in b.names if (a.asname or a.name) == n.id], level=b.level)
+            elif isinstance(b, ast.Import):
+                want = ast.Import(names=[a for a in b.names if (a.asname or a.name).split(".")[0] == n.id])
+            else:
+                want = ast.ImportFrom(module=src_dotted, names=[ast.alias(name=n.id, asname=None)], level=0)
+            if n.id in dst:
+                have = dst[n.id]
+                if ast.dump(have) == ast.dump(want) or (isinstance(have, ast.ImportFrom) and isinstance(want, ast.ImportFrom)
+                                                        and have.module == want.module and have.level == want.level):
+                    continue
+                return None
+            if not any(ast.dump(x) == ast.dump(want) for x in need):
+                need.append(ast.fix_missing_locations(want))
+    return need
+
+
 def _inline_everywhere(h: Helper, trees, imports) -> Tuple[int, int]:
     n_in = 0
     pure = _pure_expr_helper(h)
@@ -547,6 +618,22 @@ def _inline_everywhere(h: Helper, trees, imports) -> Tuple[int, int]:
                 continue
         elif rel != h.rel and imports.get(rel, {}).get(h.name) != h.rel:
             continue
+        if rel != h.rel:
+            need = _cross_module_imports(h, rel, trees)
+            if need is None:
+                continue
+            before = n_in
+            n_in += _inline_module(h, rel, tree, imports, pure)
+            if n_in > before:
+                tree.body[:0] = need
+            continue
+        n_in += _inline_module(h, rel, tree, imports, pure)
+    return n_in, _references_left(h, trees, imports)
+
+
+def _inline_module(h: Helper, rel, tree, imports, pure) -> int:
+    n_in = 0
+    if True:
         for key, fnode, cls, outer in list(function_keys(rel, tree)):
             if fnode is h.node:
                 continue
@@ -560,7 +647,10 @@ def _inline_everywhere(h: Helper, trees, imports) -> Tuple[int, int]:
             for st in tree.body:
                 if isinstance(st, ast.ClassDef):
                     n_in += _inline_in_function(h, st, st.name, rel, imports, False, pure, toplevel=True)
-    # references left anywhere?
+    return n_in
+
+
+def _references_left(h: Helper, trees, imports) -> int:
     n_left = 0
     for rel, tree in trees.items():
         for n in ast.walk(tree):
@@ -573,7 +663,7 @@ def _inline_everywhere(h: Helper, trees, imports) -> Tuple[int, int]:
                 n_left += 1
             elif isinstance(n, ast.Constant) and isinstance(n.value, str) and n.value == h.name and h.cls is not None:
                 n_left += 1                              # getattr(self, "name") style
-    return n_in, n_left
+    return n_left
 
 
 def _contains_node(outer, node) -> bool:
@@ -606,6 +696,10 @@ def _inline_in_function(h: Helper, fnode, cls, rel, imports, in_outer, pure, top
                 body[idx:idx + 1] = new
             elif kind == "subst":
                 binding = _bind(h, call, skip_first=(h.cls is not None and not h.static))
+                if any(b[0].startswith("**") for b in binding):
+                    hn = copy.deepcopy(h.node)
+                    binding = _spread_kwargs(hn, binding)
+                    pure = _pure_expr_helper(Helper(h.key, h.rel, hn, h.cls, h.outer))
                 m = {}
                 for p, v in binding:
                     if v is None:
